@@ -297,11 +297,16 @@ class ThreeQubitDiagonalGate(raw_types.Gate):
         """
 
         a, b, c = qubits
+        angles = list(self._diag_angles_radians)
         if hasattr(b, 'is_adjacent'):
+            # Unlike CCZ, a general diagonal is not symmetric under qubit exchange:
+            # re-index the angles together with the qubits.
             if not b.is_adjacent(a):
                 b, c = c, b
+                angles = [angles[i] for i in (0, 2, 1, 3, 4, 6, 5, 7)]
             elif not b.is_adjacent(c):
                 a, b = b, a
+                angles = [angles[i] for i in (0, 1, 4, 5, 2, 3, 6, 7)]
         sweep_abc = [common_gates.CNOT(a, b), common_gates.CNOT(b, c)]
         phase_matrix_inverse = 0.25 * np.array(
             [
@@ -314,12 +319,10 @@ class ThreeQubitDiagonalGate(raw_types.Gate):
                 [1, 1, -1, -1, 1, 1, -1],
             ]
         )
-        shifted_angles_tail = [
-            angle - self._diag_angles_radians[0] for angle in self._diag_angles_radians[1:]
-        ]
+        shifted_angles_tail = [angle - angles[0] for angle in angles[1:]]
         phase_solutions = phase_matrix_inverse.dot(shifted_angles_tail)
         p_gates = [pauli_gates.Z ** (solution / np.pi) for solution in phase_solutions]
-        global_phase = 1j ** (2 * self._diag_angles_radians[0] / np.pi)
+        global_phase = 1j ** (2 * angles[0] / np.pi)
         global_phase_operation = (
             [global_phase_op.global_phase_operation(global_phase)]
             if protocols.is_parameterized(global_phase) or abs(global_phase - 1.0) > 0
